@@ -32,11 +32,14 @@ pub struct Config {
     /// pick the next work item at random (seeded) instead of depth first: for budgeted runs on instances that
     /// cannot close, so that the explored paths are spread over the path tree (bug hunting)
     pub random_pop: Option<u64>,
+    /// second opinion on every obligation the first solver reports as proved: the path condition and the
+    /// negated obligations are sent, self-contained, to this solver in a fresh context
+    pub solver2: Option<String>,
 }
 
 impl Default for Config {
     fn default() -> Config {
-        Config { name: String::new(), max_paths: 200_000, max_secs: 120.0, query_timeout_ms: 5_000, solver: "z3".into(), max_violations: 1, n_samples: 3, first_inputs: vec![], verbose: false, frontier_target: 0, initial_work: vec![], n_witnesses: 0, closure: false, random_pop: None }
+        Config { name: String::new(), max_paths: 200_000, max_secs: 120.0, query_timeout_ms: 5_000, solver: "z3".into(), max_violations: 1, n_samples: 3, first_inputs: vec![], verbose: false, frontier_target: 0, initial_work: vec![], n_witnesses: 0, closure: false, random_pop: None, solver2: None }
     }
 }
 
@@ -112,6 +115,9 @@ pub struct Report {
     pub closure_time_s: f64,
     pub path_conditions: Vec<String>,
     pub closure_domain: Vec<(i64, i64)>,
+    pub second_opinions: u64,
+    pub second_opinion_skipped: u64,
+    pub solver_disagreements: Vec<String>,
 }
 
 pub struct RunOut {
@@ -203,6 +209,7 @@ pub fn explore(cfg: &Config, sym: &dyn Fn(), native: Option<&dyn Fn()>) -> Repor
     let t0 = Instant::now();
     let mut rep = Report { harness: cfg.name.clone(), solver: cfg.solver.clone(), query_timeout_ms: cfg.query_timeout_ms, ..Default::default() };
     let mut solver = Solver::new(&cfg.solver, cfg.query_timeout_ms);
+    let mut solver2 = cfg.solver2.as_ref().map(|b| Solver::new(b, cfg.query_timeout_ms));
     let mut work: std::collections::VecDeque<Work> = if cfg.initial_work.is_empty() { vec![Work { inputs: cfg.first_inputs.clone(), bound: 0, prefix_hash: 0 }].into() } else { cfg.initial_work.clone().into() };
     let mut frontier_reached = false;
     let mut rng_state: u64 = cfg.random_pop.unwrap_or(0) ^ 0x9E37_79B9_7F4A_7C15;
@@ -270,6 +277,13 @@ pub fn explore(cfg: &Config, sym: &dyn Fn(), native: Option<&dyn Fn()>) -> Repor
             h = mix(h, mix(a.bools[ev.cond as usize].2, ev.outcome as u64 + 2 * (ev.kind == EvKind::Assume) as u64));
             hashes.push(h);
         }
+        if let Ok(f) = std::env::var("SYMX_DUMP_TRACES") {
+            use std::io::Write;
+            if let Ok(mut fh) = std::fs::OpenOptions::new().create(true).append(true).open(f) {
+                let sigs: Vec<String> = a.trace.iter().map(|ev| format!("{:x}:{}", a.bools[ev.cond as usize].2, ev.outcome as u8)).collect();
+                let _ = writeln!(fh, "{} bound={} abort={:?} inputs={:?}", sigs.join(" "), w.bound, out.abort, w.inputs);
+            }
+        }
         let mut bound = w.bound;
         if bound > a.trace.len() || hashes[bound] != w.prefix_hash {
             rep.diverged_runs += 1;
@@ -291,8 +305,8 @@ pub fn explore(cfg: &Config, sym: &dyn Fn(), native: Option<&dyn Fn()>) -> Repor
             rep.assume_rejected_runs += 1;
         }
 
-        // ---- solver context for this run
-        solver.push();
+        // ---- solver context for this run (a fresh top-level context: see Solver::reset_context)
+        solver.reset_context();
         let mut em = Emitter::new();
         let mut defs = String::new();
         em.declare_vars(a, &mut defs);
@@ -300,6 +314,8 @@ pub fn explore(cfg: &Config, sym: &dyn Fn(), native: Option<&dyn Fn()>) -> Repor
         let nvars = a.vars.len();
 
         let n = a.trace.len();
+        let dump_flips = std::env::var("SYMX_DUMP_TRACES").is_ok();
+        let mut flip_log = String::new();
         for j in 0..n {
             let ev = &a.trace[j];
             let mut defs = String::new();
@@ -318,7 +334,11 @@ pub fn explore(cfg: &Config, sym: &dyn Fn(), native: Option<&dyn Fn()>) -> Repor
                 if seen_flips.insert(key) {
                     solver.push();
                     solver.send(&format!("(assert {})\n", if ev.outcome { format!("(not {})", name) } else { name.clone() }));
-                    match solver.check(nvars) {
+                    let ans = solver.check(nvars);
+                    if dump_flips {
+                        flip_log.push_str(&format!(" {}:{}", j, match &ans { Answer::Sat(_) => "sat", Answer::Unsat => "unsat", Answer::Unknown(_) => "unk" }));
+                    }
+                    match ans {
                         Answer::Sat(m) => {
                             let flipped_hash = mix(hashes[j], mix(a.bools[ev.cond as usize].2, (!ev.outcome) as u64 + 2 * (ev.kind == EvKind::Assume) as u64));
                             work.push_back(Work { inputs: m, bound: j + 1, prefix_hash: flipped_hash });
@@ -373,6 +393,12 @@ pub fn explore(cfg: &Config, sym: &dyn Fn(), native: Option<&dyn Fn()>) -> Repor
                         }
                     }
                 }
+            }
+        }
+        if dump_flips {
+            use std::io::Write;
+            if let Ok(mut fh) = std::fs::OpenOptions::new().create(true).append(true).open(std::env::var("SYMX_DUMP_TRACES").unwrap()) {
+                let _ = writeln!(fh, "  flips(bound {}):{}", bound, flip_log);
             }
         }
         if complete && is_new_path {
@@ -438,6 +464,36 @@ pub fn explore(cfg: &Config, sym: &dyn Fn(), native: Option<&dyn Fn()>) -> Repor
                     solver.send(&format!("(assert (not (and {} true)))\n", names.join(" ")));
                     let first = solver.check(nvars);
                     solver.pop();
+                    if first == Answer::Unsat {
+                        if let Some(s2) = solver2.as_mut() {
+                            let lits: Vec<(u32, bool)> = a.trace.iter().map(|e| (e.cond, e.outcome)).collect();
+                            let obs: Vec<u32> = a.obligations.iter().filter(|o| a.bconst(o.cond) != Some(true)).map(|o| o.cond).collect();
+                            match crate::solver::inline_query(a, &lits, &obs) {
+                                None => rep.second_opinion_skipped += 1,
+                                Some(q) => {
+                                    s2.reset_context();
+                                    let mut txt = String::new();
+                                    for (i, v) in a.vars.iter().enumerate() {
+                                        txt.push_str(&format!("(declare-const x{} Int)\n(assert (and (<= {} x{}) (<= x{} {})))\n", i, crate::solver::ilit(v.lo), i, i, crate::solver::ilit(v.hi)));
+                                    }
+                                    txt.push_str(&format!("(assert {})\n", q));
+                                    s2.send(&txt);
+                                    rep.second_opinions += 1;
+                                    match s2.check(nvars) {
+                                        Answer::Unsat | Answer::Unknown(_) => {}
+                                        Answer::Sat(m) => {
+                                            // the two solvers disagree: take the model as a counterexample candidate;
+                                            // the native replay decides
+                                            if rep.solver_disagreements.len() < 5 {
+                                                rep.solver_disagreements.push(format!("{} proved, {} found inputs {:?}", cfg.solver, s2.binary, m));
+                                            }
+                                            candidate = Some((m, "?".into(), "second solver model".into()));
+                                        }
+                                    }
+                                }
+                            }
+                        }
+                    }
                     match first {
                         Answer::Unsat => rep.obligations_by_solver += names.len() as u64,
                         Answer::Sat(m) => candidate = Some((m, "?".into(), "solver model".into())),
@@ -519,7 +575,6 @@ pub fn explore(cfg: &Config, sym: &dyn Fn(), native: Option<&dyn Fn()>) -> Repor
                 }
             }
         }
-        solver.pop();
         if cfg.verbose && rep.runs % 200 == 0 {
             eprintln!("[{}] runs {} paths {} work {} queries {} solver {:.1}s wall {:.1}s", cfg.name, rep.runs, rep.paths, work.len(), solver.queries, solver.time_s, t0.elapsed().as_secs_f64());
         }
@@ -559,7 +614,7 @@ impl Report {
     pub fn merge(&mut self, o: &Report) {
         self.exhaustive &= o.exhaustive;
         macro_rules! add { ($($f:ident),*) => { $( self.$f += o.$f; )* } }
-        add!(unrealised_flips, paths, paths_with_obligations, assume_rejected_runs, div0_paths, sqrt_neg_paths, unsupported_paths, diverged_runs, pending_work, runs, queries, sat, unsat, unknown, undecided_flips, undecided_obligations, obligations_checked, obligations_by_solver, obligations_on_path, solver_time_s, concretised, inexact, exact_terms, rounded_terms, uf_terms, rounded_compares, uf_compares, signed_zero, witness_validated, witness_mismatch, shards);
+        add!(second_opinions, second_opinion_skipped, unrealised_flips, paths, paths_with_obligations, assume_rejected_runs, div0_paths, sqrt_neg_paths, unsupported_paths, diverged_runs, pending_work, runs, queries, sat, unsat, unknown, undecided_flips, undecided_obligations, obligations_checked, obligations_by_solver, obligations_on_path, solver_time_s, concretised, inexact, exact_terms, rounded_terms, uf_terms, rounded_compares, uf_compares, signed_zero, witness_validated, witness_mismatch, shards);
         self.wall_s = self.wall_s.max(o.wall_s);
         self.max_trace_len = self.max_trace_len.max(o.max_trace_len);
         self.n_vars = self.n_vars.max(o.n_vars);
@@ -568,6 +623,7 @@ impl Report {
         }
         for m in &o.unsupported_msgs { if !self.unsupported_msgs.contains(m) { self.unsupported_msgs.push(m.clone()); } }
         for m in &o.solver_errors { if self.solver_errors.len() < 10 { self.solver_errors.push(m.clone()); } }
+        for m in &o.solver_disagreements { if self.solver_disagreements.len() < 10 { self.solver_disagreements.push(m.clone()); } }
         for m in &o.notes { if self.notes.len() < 20 && !self.notes.contains(m) { self.notes.push(m.clone()); } }
         self.violations.extend(o.violations.iter().cloned());
         self.unconfirmed_candidates.extend(o.unconfirmed_candidates.iter().cloned());
